@@ -293,6 +293,19 @@ def suite_keepalive(g, tier, rnd):
             g.case('nstart.keepalive', cfg, ls, ns=ns, nsess=2, ka=ka, until_ms=5 * K + 20000)
 
 
+def suite_sendfail(g, tier, rnd):
+    """A transient send error (ENOBUFS) on one datagram: in a send call the call fails; for a held message that is being released, or a retransmission,
+    the message stays queued, keeps its NSTART slot and goes out again on schedule."""
+    cfg = dict(ato=2000, rf=1000, mr=2, tol=16)
+    for ns in (1, 2):
+        for j in range(0, 5):
+            for t3 in (400, 2500):
+                ls = ['A 0 0 CON 60', 'A 1 0 CON 61', 'A 2 0 CON 62', 'A %d 0 CON 63' % t3, 'A %d 0 NON 64' % (t3 + 1),
+                      'R 60 0 ack+300', 'R 61 0 ack+50', 'R 62 0 pig+50', 'R 63 0 ack+50', 'R 64 0 sepnon+5', 'F %d' % j]
+                g.case('nstart.sendfail', cfg, ls, ns=ns)
+        g.case('nstart.sendfail', cfg, ['A 0 0 CON 60', 'R 60 0 none', 'R 60 1 ack+10', 'F 1', 'A 100 0 CON 61', 'R 61 0 ack+10'], ns=ns)
+
+
 def suite_random(g, tier, rnd, n):
     for _ in range(n):
         cfg = rnd.choice(CFGS[:5] + CFGS[6:8])
@@ -362,6 +375,7 @@ def run(pid, tier):
     suite_nstart(g, tier, rnd)
     suite_samemid(g, tier, rnd)
     suite_keepalive(g, tier, rnd)
+    suite_sendfail(g, tier, rnd)
     suite_random(g, tier, rnd, 1500 if tier == 'quick' else 60000)
     nchunk = V.NCPU
     chunks = [[] for _ in range(nchunk)]
